@@ -28,4 +28,16 @@ theorem decrypt_domains :
 theorem domains_agree : Gen.LayoutEncrypt.decryptDomains = Gen.LayoutEncrypt.encryptDomains.reverse := by
   decide
 
+/-- the size bound of a sealed message is the source's constant … -/
+theorem max_message : Gen.LayoutEncrypt.maxEncryptedMessageSize = Encrypt.maxMessage := by decide
+
+/-- … checked by the sender on the message length before anything else touches s2, and by the
+receiver on the length the opened payload declares, after `s2.DecodedLen` and before `s2.Decode`. -/
+theorem size_guards :
+    Gen.LayoutEncrypt.encryptSizeGuard = ["len(msgSrc) > MaxEncryptedMessageSize => return nil, ErrMessageTooLarge"] ∧
+    Gen.LayoutEncrypt.encryptSizeGuardS2Before = [] ∧
+    Gen.LayoutEncrypt.decryptSizeGuard = ["msgLen > MaxEncryptedMessageSize => return nil, ErrMessageTooLarge"] ∧
+    Gen.LayoutEncrypt.decryptSizeGuardS2Before = ["s2.DecodedLen(msgDec)"] := by
+  repeat' constructor
+
 end Bifrost.Ties.Encrypt
